@@ -21,13 +21,24 @@ RULE = ("Cases name one of the seven functions of chempy/kinetics/integrated.py,
         "initial concentration.  'initial': the function is called with t = 0 and exact rationals (sympy backend), the "
         "result must be exactly the initial concentration.  'backends': numpy (name, module, default; scalar and array "
         "t), math (name, module) at binary-float parameters against the sympy backend evaluated exactly at the same "
-        "binary-float point.  Non-trivial = non-zero initial product and all parameters pairwise distinct; distinct by "
-        "case digest.")
+        "binary-float point.  'backend_types': the same comparison with the *type* of every parameter drawn "
+        "independently (or one type for all): Python int, numpy.int64, 0-d int64 array for integral values, float, "
+        "numpy.float64, 0-d float64 array, fractions.Fraction for any value; time as float, numpy.float64 or int; "
+        "parameter sets are integral (1..100, so every type applies) or the general rationals.  Non-trivial = non-zero "
+        "initial product and all parameters pairwise distinct; distinct by case digest.")
 ASSUMPTIONS = ["sympy differentiation (diff) and lambdify->mpmath evaluation at 50 digits are trusted",
                "identity in t and the parameters is decided by evaluation at generated rational points "
                "(|residual| <= 1e-30 * sum of |terms|), not by a symbolic proof",
                "backend agreement is judged to 1e-9 relative to the sum of the concentration inputs (the terms the "
-               "closed forms add and subtract), for times up to 8 characteristic times (no exp overflow region)"]
+               "closed forms add and subtract), for times up to 8 characteristic times (no exp overflow region)",
+               "parameter types ('backend_types'): the domain is what the unchanged tree accepts for all seven functions "
+               "with every backend it is combined with - int, numpy.int64, numpy.float64, float, 0-d int64/float64 "
+               "arrays with numpy/math/sympy; Fraction with math and sympy only (numpy ufuncs reject Fraction objects: "
+               "np.sqrt(Fraction) in binary_rev / binary_irrev_cstr and np.exp of an object array for array t - "
+               "numpy's behaviour, not judged).  Not generated: numpy.float32 (single-precision arithmetic agrees to "
+               "1e-7 only), 32-bit and unsigned numpy integers (silent wrap-around of intermediates such as -fv or "
+               "x4**2 is numpy semantics), 1-d parameter arrays (broadcasting, another clause), sympy numbers with "
+               "the numeric backends"]
 
 # ---------------------------------------------------------------------------------------------------------------------
 # description of the seven functions (names, argument order as documented, outputs, initial values)
@@ -365,6 +376,30 @@ def _family(name):
     return "math" if name.startswith("math") else "numpy"
 
 
+# parameter types: name -> (constructor from the binary-float value, needs an integral value)
+INT_TYPES = ["int", "np.int64", "0d_int64"]
+ANY_TYPES = ["float", "np.float64", "0d_float64", "Fraction"]
+T_TYPES = ["float", "np.float64", "int"]
+
+
+def typed(tname, x):
+    """x: float (the binary-float point) -> the same number as an object of the named type."""
+    import numpy as np
+    if tname in INT_TYPES:
+        if x != int(x):
+            raise ValueError("type %s for the non-integral value %r" % (tname, x))      # generator error
+        return {"int": int, "np.int64": np.int64, "0d_int64": lambda v: np.array(v, dtype=np.int64)}[tname](int(x))
+    return {"float": float, "np.float64": np.float64, "0d_float64": lambda v: np.array(v, dtype=np.float64),
+            "Fraction": Fraction}[tname](x)
+
+
+def typed_time(tname, x):
+    import numpy as np
+    if tname == "int":
+        return int(x) if x == int(x) else x     # an integral time (t = 0) as a Python int
+    return np.float64(x) if tname == "np.float64" else x
+
+
 def check_backends(case, ctx):
     import numpy as np
     import sympy as sp
@@ -378,6 +413,19 @@ def check_backends(case, ctx):
     tsf = [float(F(t)) for t in case["ts"]]
     ts = [Fraction(t) for t in tsf]
     classify(case, ctx, p, ts)
+    # what chempy is called with: the same numbers, each as an object of the type the case names (default: float)
+    types = case.get("types") or {}
+    t_type = case.get("t_type", "float")
+    pv = {k: (v if k == "n" else typed(types.get(k, "float"), v)) for k, v in pf.items()}
+    tsv = [typed_time(t_type, t) for t in tsf]
+    used = sorted(set(types.get(k, "float") for k in pf if k != "n"))
+    has_fraction = "Fraction" in used
+    if types:
+        ctx.label("types:uniform" if len(used) == 1 else "types:mixed", "t_type:" + t_type, *["type:" + u for u in used])
+        rate_keys = [k for k in ("k", "kf", "kb", "fv") if k in pf]
+        ctx.label("rate_params:all_numpy_int" if all(types.get(k) in ("np.int64", "0d_int64") for k in rate_keys) else
+                  "rate_params:all_python_int" if all(types.get(k) == "int" for k in rate_keys) else "rate_params:other")
+    tdesc = {k: types.get(k, "float") for k in pf if k != "n"}
     regime = cstr2_regime(p) if fn == "binary_irrev_cstr" else "n/a"
     S = float(conc_scale(fn, p))
     nout = len(SPECS[fn]["out"])
@@ -404,10 +452,13 @@ def check_backends(case, ctx):
         # the sympy backend fed with floats (sympy Float arithmetic, 15 digits).  Above the CSTR steady state sympy's
         # atanh runs through the complex branch and leaves an imaginary rounding residue (~1e-17) on a mathematically
         # real value: judged with the same tolerance as the value itself
-        for tf, rrow in zip(tsf, ref):
-            ys = sut(call, fn, tf, pf, backend="sympy")
+        for tf, tv, rrow in zip(tsf, tsv, ref):
+            ys = sut(call, fn, tv, pv, backend="sympy")
             if is_err(ys):
-                ctx.fail("sympy_backend_raises:" + fn, error=repr(ys), arguments="float")
+                ctx.fail("sympy_backend_raises:" + fn, error=repr(ys), arguments="float" if not types else "typed",
+                         types=tdesc, t_type=t_type)
+                if types:
+                    break       # typed parameters: show what the numeric backends do with the same objects as well
                 return
             for name, y, r in zip(SPECS[fn]["out"], ys, rrow):
                 try:
@@ -417,18 +468,23 @@ def check_backends(case, ctx):
                     return
                 if not (abs(v.imag) <= BE_TOL * S and abs(v.real - r) <= BE_TOL * S):
                     ctx.fail("backend_value:%s:%s" % (fn, name), backend="sympy", spec="sympy_float", mode="scalar",
-                             t=tf, got=str(v), reference=r, scale=S, regime=regime)
+                             t=tf, got=str(v), reference=r, scale=S, regime=regime, types=tdesc, t_type=t_type)
                     return
     backends = BACKENDS if SPECS[fn]["backend"] else ["plain"]
     for bname in backends:
         modes = ["scalar"] if _family(bname) == "math" else ["scalar", "array"]
         if bname == "plain":
             modes = ["scalar", "array"]
+        if has_fraction and (bname == "plain" or _family(bname) == "numpy"):
+            # numpy ufuncs do not take Fraction objects (np.sqrt(Fraction(..)), np.exp of an object array): Fraction
+            # parameters are in the domain of the math and sympy backends only (see ASSUMPTIONS)
+            ctx.label("numpy_family_not_called:Fraction_parameter")
+            continue
         for mode in modes:
             with warnings.catch_warnings():
                 warnings.simplefilter("ignore")       # numpy RuntimeWarnings (invalid value in arctanh) are judged via the nan
                 if mode == "array":
-                    got = sut(call, fn, np.array(tsf), pf, backend=_backend_obj(bname) if bname != "plain" else None)
+                    got = sut(call, fn, np.array(tsf), pv, backend=_backend_obj(bname) if bname != "plain" else None)
                     rows = got
                     if not is_err(got):
                         try:
@@ -439,8 +495,8 @@ def check_backends(case, ctx):
                             return
                 else:
                     rows = []
-                    for tf in tsf:
-                        got = sut(call, fn, tf, pf, backend=_backend_obj(bname) if bname != "plain" else None)
+                    for tv in tsv:
+                        got = sut(call, fn, tv, pv, backend=_backend_obj(bname) if bname != "plain" else None)
                         if is_err(got):
                             rows = got
                             break
@@ -453,12 +509,13 @@ def check_backends(case, ctx):
             if is_err(rows):
                 how = "%s: %s" % (rows.type, rows.msg[:60])
                 ctx.fail("real_backend_fails", fn=fn, backend=fam, spec=bname, mode=mode, regime=regime, how=how,
-                         signature="%s:%s" % (fam, how))
+                         signature="%s:%s" % (fam, how), types=tdesc, t_type=t_type)
                 continue
             bad = [(i, j) for i in range(len(tsf)) for j in range(nout) if not math.isfinite(rows[i][j])]
             if bad:
                 ctx.fail("real_backend_fails", fn=fn, backend=fam, spec=bname, mode=mode, regime=regime, how="nan",
-                         signature="%s:nan" % fam, t=tsf[bad[0][0]], output=SPECS[fn]["out"][bad[0][1]])
+                         signature="%s:nan" % fam, t=tsf[bad[0][0]], output=SPECS[fn]["out"][bad[0][1]], types=tdesc,
+                         t_type=t_type)
                 continue
             for i in range(len(tsf)):
                 for j in range(nout):
@@ -470,7 +527,8 @@ def check_backends(case, ctx):
                     # <= 2e-15*S (others).  1e-9*S leaves a factor 50 and is 9 orders below any formula error.
                     if not (abs(rows[i][j] - ref[i][j]) <= BE_TOL * S):
                         ctx.fail("backend_value:%s:%s" % (fn, SPECS[fn]["out"][j]), backend=fam, spec=bname, mode=mode,
-                                 t=tsf[i], got=rows[i][j], reference=ref[i][j], scale=S, regime=regime)
+                                 t=tsf[i], got=rows[i][j], reference=ref[i][j], scale=S, regime=regime, types=tdesc,
+                                 t_type=t_type)
                         return
 
 
@@ -565,6 +623,68 @@ def backend_cases(draw):
     return {"fn": fn, "p": {k: fstr(v) for k, v in p.items()}, "ts": [fstr(t) for t in ts]}
 
 
+ipos = st.integers(1, 100)        # integral parameter value: every parameter type can carry it
+TYPE_ORDER = ["float", "int", "np.int64", "np.float64", "0d_int64", "0d_float64", "Fraction"]   # first = the plain case
+
+
+@st.composite
+def integral_param_sets(draw, fns=FN_ORDER):
+    """Same shapes as param_sets, all values integers: 1..100 (initial product / product feed may be 0),
+    major = minor*(1+q) with q in 1..10, r free (for 2 A -> n B this lands on both sides of the steady state)."""
+    fn = draw(st.sampled_from(fns))
+    p = {}
+    zero_or = lambda: Fraction(0) if draw(st.integers(0, 7)) == 7 else Fraction(draw(ipos))   # noqa: E731
+    if fn == "dimerization_irrev":
+        p["kf"] = Fraction(draw(ipos))
+        p["initial_C"] = Fraction(draw(ipos))
+        if draw(st.integers(0, 3)) == 3:
+            p["t0"] = Fraction(draw(ipos))
+    elif fn in ("pseudo_irrev", "pseudo_rev", "binary_irrev", "binary_rev"):
+        p["kf"] = Fraction(draw(ipos))
+        if fn.endswith("_rev"):
+            p["kb"] = Fraction(draw(ipos))
+        p["prod"] = zero_or()
+        p["minor"] = Fraction(draw(ipos))
+        p["major"] = p["minor"] * (1 + draw(st.integers(1, 10)))
+    else:
+        p["k"] = Fraction(draw(ipos))
+        p["fr"] = Fraction(draw(ipos))
+        p["fv"] = Fraction(draw(ipos))
+        p["p"] = zero_or()
+        p["fp"] = zero_or()
+        if fn == "unary_irrev_cstr" or draw(st.integers(0, 3)) == 3:
+            p["r"] = Fraction(draw(ipos))
+        else:
+            # the integer next to rho * A_ss: both sides of the steady state (see param_sets)
+            k, fr, fv = float(p["k"]), float(p["fr"]), float(p["fv"])
+            a_ss = 2 * fr * fv / (fv + math.sqrt(fv * fv + 8 * k * fr * fv))
+            p["r"] = Fraction(max(1, int(round(float(draw(st.sampled_from(RHOS))) * a_ss))))
+        if fn == "binary_irrev_cstr" and draw(st.integers(0, 3)) != 0:
+            p["n"] = Fraction(draw(st.integers(1, 4)))
+    return fn, p
+
+
+@st.composite
+def typed_backend_cases(draw):
+    """backend_cases plus a type per parameter.  Integer types are offered wherever the value is integral (always for the
+    integral parameter sets, 2 of 3 cases), float-like types and Fraction everywhere."""
+    fn, p = draw(integral_param_sets()) if draw(st.integers(0, 2)) < 2 else draw(param_sets())
+    n = draw(st.integers(1, 3))
+    ts = [p.get("t0", Fraction(0))] + [_time(draw, fn, p, False) for _ in range(n)]
+    names = [k for k in p if k != "n"]
+    allowed = {k: (TYPE_ORDER if float(p[k]) == int(float(p[k])) else ANY_TYPES) for k in names}
+    if draw(st.booleans()):       # one type for all parameters (of those every value admits)
+        common = [t for t in TYPE_ORDER if all(t in allowed[k] for k in names)]
+        one = draw(st.sampled_from(common))
+        types = {k: one for k in names}
+    else:
+        # Fraction switches the numpy family off for the whole case: admit it in 1 of 4 mixed cases only
+        with_fraction = draw(st.integers(0, 3)) == 3
+        types = {k: draw(st.sampled_from([t for t in allowed[k] if with_fraction or t != "Fraction"])) for k in names}
+    return {"fn": fn, "p": {k: fstr(v) for k, v in p.items()}, "ts": [fstr(t) for t in ts], "types": types,
+            "t_type": draw(st.sampled_from(T_TYPES))}
+
+
 SUBCHECKS = [
     SubCheck("ode", check_ode, strategy=ode_cases(), quick=1500, thorough=60000,
              rule="d/dt of the sympy-backend expression minus the hand-written mechanism right-hand side at rational "
@@ -582,5 +702,11 @@ SUBCHECKS = [
              rule="numpy ('numpy', module, default None; scalar and array t) and math ('math', module) against the "
                   "sympy backend evaluated exactly (40 digits) at the same binary-float point; t = 0 and 1-3 times "
                   "within 8 characteristic times",
+             tolerances={"backend_value": "|got - ref| <= 1e-9 * (sum of concentration inputs [* (1+n) for 2A->nB])"}),
+    SubCheck("backend_types", check_backends, strategy=typed_backend_cases(), quick=800, thorough=20000,
+             rule="'backends' with a type per parameter: int / numpy.int64 / 0-d int64 array (integral values), float / "
+                  "numpy.float64 / 0-d float64 array / Fraction (any value), one type for all or drawn per parameter; "
+                  "time as float, numpy.float64 or (t = 0) int; Fraction parameters with math and sympy only; integral "
+                  "parameter sets 1..100 in 2 of 3 cases; same reference (sympy, exact) and tolerance",
              tolerances={"backend_value": "|got - ref| <= 1e-9 * (sum of concentration inputs [* (1+n) for 2A->nB])"}),
 ]
